@@ -29,6 +29,7 @@ class SimFile(io.IOBase):
         encoding: str = "utf-8",
         errors: str = "strict",
         seekable: bool = False,
+        max_read: int = 0,
     ) -> None:
         super().__init__()
         self._data = data
@@ -41,6 +42,10 @@ class SimFile(io.IOBase):
         self.encoding = encoding
         self.errors = errors
         self._seekable = seekable
+        # short reads: read(n) with n > 0 returns at most max_read units, like a pipe or socket;
+        # read() / read(-1) still returns everything up to EOF, as io.RawIOBase.readall does
+        self._max_read = max_read
+        self._tbuf: Optional[str] = None
         self.reads = 0
         self.writes = 0
 
@@ -54,30 +59,40 @@ class SimFile(io.IOBase):
     def seekable(self) -> bool:
         return self._seekable
 
+    def _buf(self) -> Any:
+        """The readable content: bytes, or (text mode) the decoded string; decoding errors surface at the first read."""
+        if not self._text:
+            return self._data
+        if self._tbuf is None:
+            self._tbuf = self._data.decode(self.encoding, self.errors)
+        return self._tbuf
+
     def read(self, n: int = -1) -> Any:
         if self.closed:
             raise ValueError("I/O operation on closed file.")
         if self._sink is not None:
             raise io.UnsupportedOperation("not readable")
         self.reads += 1
+        buf = self._buf()
         if n is None or n < 0:
-            chunk = self._data[self._pos :]
-            self._pos = len(self._data)
+            chunk = buf[self._pos :]
+            self._pos = len(buf)
         else:
-            chunk = self._data[self._pos : self._pos + n]
+            if self._max_read:
+                n = min(n, self._max_read)
+            chunk = buf[self._pos : self._pos + n]
             self._pos += len(chunk)
         if self._on_event is not None:
             self._on_event("read", self.name, len(chunk))
-        if self._text:
-            return chunk.decode(self.encoding, self.errors)
         return chunk
 
     def readline(self, size: int = -1) -> Any:  # type: ignore[override]
-        rest = self._data[self._pos :]
-        i = rest.find(b"\n")
+        buf = self._buf()
+        rest = buf[self._pos :]
+        i = rest.find("\n" if self._text else b"\n")
         chunk = rest if i < 0 else rest[: i + 1]
         self._pos += len(chunk)
-        return chunk.decode(self.encoding, self.errors) if self._text else chunk
+        return chunk
 
     def seek(self, pos: int, whence: int = 0) -> int:
         if not self._seekable:
@@ -87,7 +102,7 @@ class SimFile(io.IOBase):
         elif whence == 1:
             self._pos += pos
         else:
-            self._pos = len(self._data) + pos
+            self._pos = len(self._buf()) + pos
         return self._pos
 
     def tell(self) -> int:
